@@ -58,7 +58,9 @@ def run(prop, seed, run_rules, only=None):
     if not entries:
         return {"entries": 0, "failed": ["no catalogue entry for %s" % prop]}
     rnd = random.Random("%s-%s" % (prop, seed))
-    mutants = [e for e in entries if e.get("expect")]
+    # a seeded edit is owed by the property its expected key belongs to; listed under another property it is only run there as
+    # a benign-or-reported probe when it is that property's own (an entry's `expect` names one rule instance of one property)
+    mutants = [e for e in entries if e.get("expect") and e["expect"].split("/")[0] == prop]
     benign = [e for e in entries if not e.get("expect")]
     if len(mutants) + len(benign) > MAX_PER_RUN and only is None:
         nb = min(len(benign), 3)
